@@ -48,6 +48,21 @@ def check_point(kind, lon, lat, depths, pix_depths, planetary, part):
     csn = "planetary" if planetary else "astronomical"
     p = tg.vec(lon, lat)
     base = {"lon": lon, "lat": lat, "coordsys": csn, "kind": kind}
+    # a lookup in the OTHER system at the longitude 180 degrees away (the same address in the square)
+    # immediately before: the answer for this system must not depend on it
+    other = toast.ToastCoordinateSystem.ASTRONOMICAL if planetary else toast.ToastCoordinateSystem.PLANETARY
+    for d0 in (2, 5):
+        try:
+            toast.toast_tile_for_point(d0, lat, lon + np.pi, coordsys=other)
+            t = toast.toast_tile_for_point(d0 + 1, lat, lon, coordsys=cs)
+            part.case(nontrivial=True)
+            pos = tuple(t.pos)
+            c, _inc = tg.single(pos[0], pos[1], pos[2], planetary)
+            got = tg.vec(np.array([q[0] for q in t.corners]), np.array([q[1] for q in t.corners]))
+            if not tg.contains(c, p, tol=1e-9) or tg.angdist(got, c).max() > 1e-9:
+                part.violation("tile/depends-on-previous-lookup/coordsys=%s" % csn, "%r: after a lookup in the other system at lon+pi, depth %d returns tile %r (contains point: %r, corners off by %.3g rad)" % (base, d0 + 1, pos, tg.contains(c, p, tol=1e-9), tg.angdist(got, c).max()), dict(base, depth=d0 + 1))
+        except Exception as e:
+            part.violation("tile/raises:%s/coordsys=%s" % (type(e).__name__, csn), "%r: %r" % (base, e), dict(base, depth=d0 + 1))
     prev = None
     for d in depths:
         per_shift = []
@@ -107,6 +122,9 @@ def check_point(kind, lon, lat, depths, pix_depths, planetary, part):
                     continue
                 pos = tuple(t.pos)
                 if pos[0] != d:
+                    continue
+                if not tg.contains(tg.single(d, pos[1], pos[2], planetary)[0], p, tol=1e-9):
+                    part.violation("pixel/tile-does-not-contain-point/coordsys=%s" % csn, "%r: toast_pixel_for_point returned tile %r which does not contain the point" % (cfg, pos), cfg)
                     continue
                 g = tg.pixel_grid(d, pos[1], pos[2], planetary)
                 dist = np.linalg.norm(g - p, axis=-1)
